@@ -116,7 +116,44 @@ def make_chaos(world, b):
                     task=t, placement_time=US(now + rt + delta), worker_pool_id=p.id, worker_id=wid,
                     execution_strategy=s))
                 self._n("place")
+            self._profile_decisions(sim_time, now, rt, pools, out)
             return Placements(runtime=self.runtime, true_runtime=US(0), placements=out)
+
+        def _profile_decisions(self, sim_time, now, rt, pools, out):
+            """load / re-load / evict model profiles on workers (next to running tasks): a load is only
+            requested where the loading strategy fits right now and where this invocation placed no task"""
+            if not pol.get("p_load"):
+                return
+            r = random.Random(f"{world['seed']}:chaos-load:{self.inv}")
+            if r.random() >= pol["p_load"]:
+                return
+            used_pools = {p_.worker_pool_id for p_ in out
+                          if p_.placement_type.name == "PLACE_TASK" and p_.is_placed()}
+            profs = [p_ for p_ in b.profiles.values() if len(list(p_.loading_strategies)) > 0]
+            if not profs:
+                return
+            prof = r.choice(sorted(profs, key=lambda p_: p_.name))
+            pool = r.choice(pools)
+            w = r.choice(list(pool.workers))
+            avail = w.is_available(prof)
+            if _us(avail) == 0 and r.random() < 0.5:
+                out.append(Placement.create_evict_profile_placement(
+                    work_profile=prof, placement_time=US(now + rt), worker_pool_id=pool.id, worker_id=w.id))
+                self._n("evict_profile")
+                return
+            if pool.id in used_pools:
+                return
+            ls = r.choice(list(prof.loading_strategies))
+            if not w.can_accomodate_strategy(ls):
+                return
+            if _us(avail) is not None and _us(avail) > 0:
+                return  # still loading
+            if _us(avail) == 0:
+                self._n("reload_profile")
+            out.append(Placement.create_load_profile_placement(
+                work_profile=prof, placement_time=US(now + rt), worker_pool_id=pool.id, loading_strategy=ls,
+                worker_id=w.id))
+            self._n("load_profile")
 
         def _batch_for(self, r, s, w, t):
             from workload import BatchStrategy
@@ -146,3 +183,57 @@ def make_chaos(world, b):
             self.stats[k] = self.stats.get(k, 0) + 1
 
     return ChaosPolicy()
+
+
+def make_wc(world, b):
+    """WorkConserving policy with latency: a harness-owned first-fit policy (by release time or deadline)
+    that, unlike the bundled greedy policies, takes `runtime` > 0 simulated microseconds to decide and
+    therefore places at sim_time + runtime (fault kind F2 for C05's work-conserving clause).  It never
+    skips a task that fits the scratch copy of the cluster, never cancels, never plans further ahead."""
+    from copy import copy
+
+    from schedulers import BaseScheduler
+    from utils import EventTime
+    from workload import Placement, Placements
+
+    pol = world["policy"]
+    US = lambda x: EventTime(int(x), EventTime.Unit.US)  # noqa
+
+    class WCPolicy(BaseScheduler):
+        def __init__(self):
+            super().__init__(preemptive=False, runtime=US(pol.get("runtime", 1)), lookahead=US(0),
+                             enforce_deadlines=False, retract_schedules=False, release_taskgraphs=False,
+                             _flags=b.flags)
+            self.stats = {}
+
+        def schedule(self, sim_time, workload, worker_pools):
+            offer = workload.get_schedulable_tasks(sim_time, self.lookahead, False, False, worker_pools,
+                                                   self.policy, self.branch_prediction_accuracy, False)
+            pools = copy(worker_pools)
+            if pol.get("order") == "deadline":
+                offer = sorted(offer, key=lambda t: (_us(t.deadline), t.unique_name))
+            else:
+                offer = sorted(offer, key=lambda t: (_us(t.release_time), t.unique_name))
+            out = []
+            when = US(_us(sim_time) + _us(self.runtime))
+            for t in offer:
+                if t.state.name not in ("VIRTUAL", "RELEASED"):
+                    continue
+                done = False
+                for s in t.available_execution_strategies:
+                    for p in pools.worker_pools:
+                        if p.can_accomodate_strategy(s):
+                            p.place_task(t, execution_strategy=s)
+                            out.append(Placement.create_task_placement(
+                                task=t, placement_time=when, worker_pool_id=p.id, execution_strategy=s))
+                            self.stats["wc_place"] = self.stats.get("wc_place", 0) + 1
+                            done = True
+                            break
+                    if done:
+                        break
+                if not done:
+                    out.append(Placement.create_task_placement(task=t))
+                    self.stats["wc_wait"] = self.stats.get("wc_wait", 0) + 1
+            return Placements(runtime=self.runtime, true_runtime=US(0), placements=out)
+
+    return WCPolicy()
